@@ -34,13 +34,13 @@ CHECKS = {
  "C06": ("exploration",
          "bounded-exhaustive input enumeration through the whole pipeline with deterministic non-termination detection (pass-state digests + fuel via hook H1), abort isolation in child processes",
          "DESIGN.md §4 C06",
-         "Single-character edits of the production-covering corpus, short token strings, an integer sweep (17 directive positions x 31 values incl. wide literals; all pairs for / and %), all import graphs over 2-3 (4) files, convergence stress programs, all nests of depth <= 3 (4) over 14 block constructs x 3 leaves, self- and mutually recursive macros, and real-binary file-system faults are pushed through parse, both code generator configurations, formatter and listing. A panic, an aborted child (stack overflow, allocation failure), a recurring block of pass states, exhausted fuel, a silent failure or a diagnostic pointing outside the project is a finding.",
-         "Pass budget 64 and fuel 300k per pass are caps (reported, never verdicts); stages without a pass loop are guarded by a 10 s horizon in child processes; release arithmetic."),
+         "Single-character edits of the production-covering corpus, short token strings, an integer sweep (17 directive positions x 31 values incl. wide literals; all pairs for / and %), all import graphs over 2-3 (4) files, convergence stress programs (incl. all ordered pairs of 6 segment ranges in one bank, segments whose first byte is not at their start, defined twice or empty), all nests of depth <= 3 (4) over 14 block constructs x 3 leaves, generated-name and function-nesting texts, self- and mutually recursive macros, and real-binary file-system faults are pushed through parse, both code generator configurations, the bank image stage, formatter and listing. A panic, an aborted child (stack overflow, allocation failure), a recurring block of pass states, exhausted fuel, a silent failure or a diagnostic pointing outside the project is a finding.",
+         "Pass budget 64 and fuel 300k per pass are caps (reported, never verdicts); stages without a pass loop are guarded by a 30 s horizon in child processes (text and import-graph children alike); release arithmetic."),
  "C07": ("exploration",
          "bounded-exhaustive enumeration of construct nests, differential against an independent AST-level hand expansion",
          "DESIGN.md §4 C07",
-         "Every nest of depth <= 2 (quick) / 3 (thorough, capped as stated in the evidence) over 79 construct variants (.loop, .if/else with 7 conditions - among them constants defined only at the end of the file - and 5 branch shapes incl. unselected branches that define the names the program uses, macros, .const, scopes, 8 import forms) x 14 leaf bodies (incl. references to the enclosing block's start/end) is assembled and compared byte for byte with the program obtained by expanding the constructs by hand at AST level; a program that is rejected while its expansion assembles is a violation.",
-         "The hand expansion implements the documented meaning; pairs whose outputs differ but are both valid fixed points (certificate checker) are counted as ambiguous, not judged."),
+         "Every nest of depth <= 2 (quick) / 3 (thorough, capped as stated in the evidence) over 80 construct variants (.loop, .if/else with 7 conditions - among them constants defined only at the end of the file - and 5 branch shapes incl. unselected branches that define the names the program uses, macros, a second macro invoked next to the nest whose body defines names called like the outer ones, .const, scopes, 8 import forms incl. names imported through two levels) x 15 leaf bodies (incl. references to the enclosing block's start/end and a body with an error that exists in one intermediate pass only) is assembled and compared byte for byte with the program obtained by expanding the constructs by hand at AST level; a program that is rejected while its expansion assembles is a violation.",
+         "The hand expansion implements the documented meaning; pairs whose outputs differ in layout and are both valid fixed points (certificate checker) are counted as ambiguous, not judged; outputs of the same layout that differ in content are always a violation."),
  "C09": ("exploration",
          "bounded-exhaustive configuration enumeration (radius-bounded around base configurations) against a bank layout reference model, on the real executable",
          "DESIGN.md §4 C09",
@@ -59,23 +59,23 @@ CHECKS = {
  "C14": ("model_checking",
          "explicit-state breadth-first search over LSP event histories on the real server (fresh-server differential in every state, canonical state key), conformance replay against the real process",
          "DESIGN.md §4 C14",
-         "States are event histories (didOpen/didChange/didClose over 3 files and a typing ladder of texts, rename, codeLens, formatting) replayed on a fresh real LspServer running its real main loop; in every state a battery of 10 request types at token starts, line ends, beyond-end and inside-multi-byte positions must be answered, be well-formed and equal a fresh server's answers for the final buffers. Thorough runs to closure of the canonical state set; quick to depth 3.",
-         "Canonical key = (buffers, digest of answers): sound because every didOpen/didChange/didClose rebuilds the server state from the buffers; a state that differs from the fresh server is reported, so merging loses nothing. Text ladder is finite. stdio framing covered by the conformance replays only."),
+         "States are event histories (didOpen/didChange/didClose over 4 files - entry file, imported file, stray file, mos.toml - and a typing ladder of 14 texts, rename, codeLens, formatting, documentSymbol, semantic tokens, workspace/symbol) replayed on a fresh real LspServer running its real main loop; in every state a battery of 10 request types at token starts, line ends, beyond-end and inside-multi-byte positions must be answered, be well-formed and equal a fresh server's answers for the final buffers. The search runs once with an empty project directory and once with an erroneous imported file on disk. Thorough runs to closure of the canonical state set; quick to depth 3; states are merged only beyond depth 2.",
+         "Canonical key = (buffers, digest of answers): sound because every didOpen/didChange/didClose rebuilds the server state from the buffers; a state that differs from the fresh server is reported, so merging loses nothing (state that only a later request can see is why nothing is merged up to depth 2; the barrier between events is a request that touches no analysis state). Text ladder is finite. stdio framing covered by the conformance replays only."),
  "C19": ("model_checking",
          "stateless preemption-bounded DFS over the interleavings of the real debugger threads under a controlled scheduler (hooked scheduling points), replayable schedules",
          "DESIGN.md §4 C19",
-         "The repository's own machine and poller threads and a harness session thread run under a baton-passing scheduler that owns every lock/atomic/channel/sleep point of the emulated-machine debug adapter. For every script over setBreakpoints/configurationDone/wait/pause/continue/next/stepIn/stepOut up to the length bound (continue and steps also while the machine runs freely), on a straight-line, a loop and a subroutine program, all schedules with at most 1 (quick) / 2-3 (thorough) preemptions are executed; in each the reported stop address and registers are compared with the CPU, the machine must stay halted after a reported stop, breakpoints must not be skipped and steps must follow the uninterrupted instruction sequence. Protocol-level DAP sessions on the real process (4 programs, one laid out in descending address order) bind the adapter-level result to what a client sees.",
+         "The repository's own machine and poller threads and a harness session thread run under a baton-passing scheduler that owns every lock/atomic/channel/sleep point of the emulated-machine debug adapter. For every script over setBreakpoints/configurationDone/wait/pause/continue/next/stepIn/stepOut up to the length bound (continue and steps also while the machine runs freely), on a straight-line, a loop and a subroutine program (thorough: also nested subroutines), all schedules with at most 1 (quick) / 2-3 (thorough) preemptions are executed; in each the reported stop address and registers are compared with the CPU, the machine must stay halted after a reported stop, breakpoints must not be skipped and steps must follow the uninterrupted instruction sequence. Protocol-level DAP sessions on the real process (6 programs - one laid out in descending address order, nested subroutines, a subroutine called twice - x every breakpoint line x stepIn / next / stepOut / continue to every later visit of the line / stepIn to the end, stack trace and evaluate at every stop) bind the adapter-level result to what a client sees.",
          "Sequentially consistent interleavings at the hooked points; the harness calls the adapter methods the DAP handlers call (no TCP); recorded schedules are replayed and must reproduce the observations, a divergence is a machinery error."),
  "C17": ("exploration",
          "deviation-bounded exhaustive enumeration of buffers (trivia, whitespace, CRLF, non-ASCII deviations) with an edit-application oracle against the real formatter, on the real server",
          "DESIGN.md §4 C17",
-         "Every base program with one comment / whitespace deviation per trivia slot (including two statements sharing a line), CRLF and non-ASCII (1-, 1- and 2-UTF-16-unit characters at start/middle/end of strings and comments) variants, tiny buffers, the example sources and the formatter's own output are opened in a fresh real server; the edits returned by formatting and on-type formatting must be in range, ordered, non-overlapping and, applied with standard LSP (UTF-16, CRLF-aware) semantics, reproduce the in-process formatter exactly (cross-checked against `mos format`).",
+         "Every base program with one comment / whitespace deviation per trivia slot (including two statements sharing a line), CRLF and non-ASCII (1-, 1- and 2-UTF-16-unit characters at start/middle/end of strings and comments) variants, tiny buffers, the example sources and the formatter's own output are opened in a fresh real server - and, for pairs of buffers, after 9 histories of the same server (earlier buffers, closes, the file on disk holding the old, the new or another text, an earlier formatting request) -; the edits returned by formatting and on-type formatting must be in range, ordered, non-overlapping and, applied with standard LSP (UTF-16, CRLF-aware) semantics, reproduce the in-process formatter exactly (cross-checked against `mos format`).",
          "Own LSP text model (self-checked at start-up); only answers that contain edits are judged, as the statement says."),
  "C18": ("exploration",
          "bounded-exhaustive enumeration of test bodies x assertion placements against a reference 6502 interpreter, in-process test runner and real `mos test`",
          "DESIGN.md §4 C18",
-         "All bodies of up to 2 (quick) / 3 (thorough) instructions from a 14-instruction alphabet in a straight-line, a loop and a subroutine frame, in a straight-line, loop, subroutine and subroutine-outside-the-test frame, with one assertion of 12 kinds (registers, memory incl. the top of the address space, flags, pc, constants, and assertions that cannot be evaluated) at every gap whose compared value is the reference interpreter's value at the first or second dynamic visit (or that value + 1), plus two-bank isolation programs (with fill values and gaps between a bank's segments), are run through the real TestRunner and a stratified subset through `mos test`; verdict, failing location, message and exit status are compared with the reference.",
-         "Reference interpreter for the documented binary-mode subset is trusted (checked to be independent of the initial machine state); one assertion per test."),
+         "All bodies of up to 2 (quick) / 3 (thorough) instructions from a 14-instruction alphabet in a straight-line, a loop and a subroutine frame, in a straight-line, loop, subroutine and subroutine-outside-the-test frame, with one assertion of 12 kinds (registers, memory incl. the top of the address space, flags, pc, constants, and assertions that cannot be evaluated) at every gap whose compared value is the reference interpreter's value at the first or second dynamic visit (or that value + 1), two assertions at one address visited twice, programs with 1..512 failing tests (exit status), plus two-bank isolation programs (with fill values and gaps between a bank's segments), are run through the real TestRunner and a stratified subset through `mos test`; verdict, failing location, message and exit status are compared with the reference.",
+         "Reference interpreter for the documented binary-mode subset is trusted (checked to be independent of the initial machine state); one or two assertions per test."),
  "C10": ("model_checking",
          "exhaustive enumeration of (project, hash seed) pairs on the real executable with owned seed nondeterminism (getrandom shim)",
          "DESIGN.md §4 C10",
@@ -84,13 +84,13 @@ CHECKS = {
  "C15": ("exploration",
          "bounded-exhaustive enumeration of a scope-shape program catalogue x every identifier occurrence x new names on the real server, apply-edit-and-reassemble oracle",
          "DESIGN.md §4 C15",
-         "For every program of the scope-shape catalogue (3 nesting levels x which levels define the name as label/constant with distinct values x use level x 5 path forms x 9 wrappers x 6 import forms over two files, with decoy comments and strings), every identifier occurrence at start/middle/end and two kinds of fresh names: prepareRename, rename on a fresh real server, apply the workspace edit with LSP semantics, re-assemble in-process: no diagnostics, byte-identical output, rename back restores the texts, every edit covers an identifier bound to the renamed symbol, all files covered.",
-         "ASCII texts; new names are capture-free by construction; offered-but-empty renames are counted, not judged."),
+         "For every program of the scope-shape catalogue (3 nesting levels x which levels define the name as label/constant with distinct values x use level x 5 path forms x 19 wrappers (macros, parameters, loops, interpolation, expression positions, conditionals nested two deep incl. else branches, a definition in a branch that is not taken) x 6 import forms over two files and a decoy file, with decoy comments and strings; the plain programs also with a comment holding a 2-, 3- or 4-byte character in front of every line), every identifier occurrence at start/middle/end and two kinds of fresh names: prepareRename, rename on a fresh real server, apply the workspace edit with LSP semantics, re-assemble in-process: no diagnostics, byte-identical output, rename back restores the texts, every edit covers an identifier bound to the renamed symbol, all files covered; occurrences in branches that are not taken are bound as in the twin program in which every branch is taken, and must be part of the edit; the same request repeated returns the same edit.",
+         "Identifiers are ASCII; the build that judges is `mos build`'s (no analysis of unassembled code); new names are capture-free by construction; offered-but-empty renames are counted, not judged."),
  "C16": ("exploration",
          "bounded-exhaustive enumeration of the scope-shape catalogue with a value-identifies-definition oracle (assembled bytes) against definition/references/highlight of the real server",
          "DESIGN.md §4 C16",
-         "Same catalogue as C15. Every definition carries a distinct value and every use is emitted between marker bytes, so the assembled bytes identify the definition the build used: go-to-definition at every occurrence (every path segment) must lead there, find-references of every definition must be exactly the occurrences whose go-to-definition is that definition, highlights are that set restricted to the file.",
-         "Occurrences in code that is never assembled (uninvoked macro, untaken branch) only get the symmetry verdict; definitions with several instances (loop bodies, a file imported twice) are not judged 'missing'."),
+         "Same catalogue as C15. Every definition carries a distinct value and every use is emitted between marker bytes, so the assembled bytes identify the definition the build used: go-to-definition at every occurrence (every path segment) must lead there, find-references of every definition must be exactly the occurrences whose go-to-definition is that definition, highlights are that set restricted to the file. Both tiers run all 19 wrappers.",
+         "Occurrences in an uninvoked macro only get the symmetry verdict, those in branches that are not taken are bound as in the twin program with every branch taken; definitions with several instances (loop bodies, a file imported twice) are not judged 'missing'."),
  "C20": ("model_checking",
          "exhaustive enumeration of client-visible shutdown histories on the real process + explicit-state exploration (spin) of a Promela model of the protocol with outcome conformance",
          "DESIGN.md §4 C20",
@@ -104,7 +104,7 @@ CHECKS = {
  "C11": ("exploration",
          "bounded-exhaustive program enumeration with a certificate oracle: the fixed-point walker's byte->statement attribution against the source map and the parsed listing text",
          "DESIGN.md §4 C11",
-         "For programs covering every emitting statement kind, long lines, scopes, pc assignments, loops, conditionals, macros invoked 1-3 times and in loops, 1-2 segments plain / relocated / interleaved / with overlapping target ranges, plus every assembling statement sequence of the C02 alphabet up to length 2 (3 thorough), in both macro attribution modes and for bytes-per-line 1..16: the source map must attribute exactly the target ranges of each statement's bytes to spans inside that statement (or its invocation), and the listing must show per source line exactly those bytes in emission order with correct row addresses, each line once. Imports (5 file bodies x plain / namespace x position; imported twice with different parameters; into two segments) are decided differentially: listing and source map of main.asm + imported file against the single-file twin in which the import is replaced by a scope holding the file's text (the twin lies in the certified space).",
+         "For programs covering every emitting statement kind, long lines, scopes, pc assignments, loops, conditionals, macros invoked 1-3 times and in loops, 1-2 segments plain / relocated / interleaved / with overlapping target ranges, plus every assembling statement sequence of the C02 alphabet up to length 2 (3 thorough), in both macro attribution modes and for bytes-per-line 1..16 (also lines and macros that emit into two segments, layouts in descending address order, a macro with an error in one intermediate pass): the source map must attribute exactly the target ranges of each statement's bytes to spans inside that statement (or its invocation), and the listing must show per source line exactly those bytes in emission order with correct row addresses, each line once; both look-ups of the source map (address -> entry, line -> entries) must agree with its entries. Imports (5 file bodies x plain / namespace x position; imported twice with different parameters; into two segments) are decided differentially: listing and source map of main.asm + imported file against the single-file twin in which the import is replaced by a scope holding the file's text (the twin lies in the certified space).",
          "Row contiguity is not demanded (a row carries its first address only); for imports the statement-level attribution is inherited from the twin."),
 }
 
